@@ -1,13 +1,9 @@
 /-
-  The hand-written model functions of the pooled / flat reference equal the expressions the translator reads off
-  the current source (Generated/ExprsRef.lean, regenerated from /repo on every run): `calculate_gc_lo`,
-  `shift_sex_chroms`, `CopyNumArray.expect_flat_log2`.  An edit to one of these functions in the code changes the
-  generated term; unless the edit keeps its meaning, the theorem below stops checking.
+  `reference.calculate_gc_lo`: the model's gcRmask equals the expression the translator reads off the current source
+  (Generated/ExprsRef.lean, regenerated from /repo on every run).
 -/
 import CnvVerif.Generated.ExprsRef
-import CnvVerif.Generated.RefConsts
 import CnvVerif.Model.Reference
-import CnvVerif.Model.ReferenceExt
 import Mathlib.Tactic.Ring
 import Mathlib.Tactic.Linarith
 import Mathlib.Tactic.SplitIfs
@@ -95,54 +91,5 @@ theorem gcRmask_is_source (seq : List Char) :
     first
     | (exfalso; apply hq; first | linarith | (push Not at hc; linarith))
     | (push_cast; refine Prod.ext ?_ ?_ <;> simp only [] <;> ring)
-
-/-- `shift_sex_chroms`, one bin: the model's decision table IS the source's in-place update of `cnarr["log2"]`
-    (masks: the bin is on X / on Y outside the PARs; `is_xx`: the truthiness of the sample's recorded sex) -/
-theorem sexAdjust_is_source (isXX : Bool) (cls : CClass) (flat v : Rat) :
-    sexAdjust isXX cls flat v = src_shift_sex_chroms (cls == .x) (cls == .y) isXX flat v := by
-  unfold sexAdjust src_shift_sex_chroms
-  cases isXX <;> cases cls <;> simp <;> first | rfl | ring
-
-/-- `expect_flat_log2`: every value of the model's flat profile IS the source expression on the bin's masks -/
-theorem expectFlat_is_source (hapX : Bool) (par : Option String) (t : List CBin) :
-    expectFlat hapX par t = t.map (fun b =>
-      src_expect_flat_log2 hapX
-        (classOf ((t.head?.map (·.chrom)).getD "") par b.chrom b.s b.e == .x)
-        (classOf ((t.head?.map (·.chrom)).getD "") par b.chrom b.s b.e == .y)
-        (b.chrom == yLabel ((t.head?.map (·.chrom)).getD ""))) := by
-  unfold expectFlat src_expect_flat_log2
-  apply List.map_congr_left
-  intro b _
-  cases hapX <;> simp <;> split_ifs <;> first | rfl | simp_all
-
-/-! ### the structure of `bias_correct_logr` / `combine_probes` (Generated/RefConsts.lean) -/
-
-/-- the model's correction pipeline IS the sequence of `center_by_window` calls of `bias_correct_logr` in source
-    order, skipped under the source's test (`(log2 > NULL_LOG2_COVERAGE - MIN_REF_COVERAGE).sum() <= len // 2`) -/
-theorem correctLogr_is_source (cfg : CorrCfg) (rows : List CovRow) (logr : List Rat) :
-    correctLogr cfg rows logr =
-      correctLogrBy (REF_CORRECTION_STEPS.map (·.1)) REF_LOWCOV_THRESHOLD REF_LOWCOV_TEST.2.2 cfg rows logr := by
-  have hthr : NULL_LOG2_COVERAGE - MIN_REF_COVERAGE = REF_LOWCOV_THRESHOLD := by
-    unfold NULL_LOG2_COVERAGE MIN_REF_COVERAGE REF_LOWCOV_THRESHOLD; norm_num
-  have hsteps : REF_CORRECTION_STEPS.map (·.1) = ["gc", "rmask", "edge"] := by decide
-  have hdiv : REF_LOWCOV_TEST.2.2 = 2 := by decide
-  unfold correctLogr correctLogrBy
-  rw [hthr, hsteps, hdiv]
-  rfl
-
-/-- each step runs under its own flag, with the window fraction 0.1 the harness computes the half window from, and
-    the skip test compares the way the model does -/
-theorem correction_guards_are_source :
-    REF_CORRECTION_STEPS.map (·.2.1) = ["fix_gc", "fix_rmask", "fix_edge"] ∧
-    REF_CORRECTION_STEPS.all (fun s => s.2.2 == 1 / 10) = true ∧
-    REF_LOWCOV_TEST.1 = "Gt" ∧ REF_LOWCOV_TEST.2.1 = "LtE" := by
-  refine ⟨by decide, by decide +kernel, by decide, by decide⟩
-
-/-- which corrections a block gets IS what `combine_probes` writes in its two `load_sample_block` calls -/
-theorem blockCfg_is_source (doGc doEdge doRmask : Bool) (k : BlockKeys) :
-    blockCfg true doGc doEdge doRmask k = blockCfgBy REF_TARGET_FLAGS doGc doEdge doRmask k ∧
-    blockCfg false doGc doEdge doRmask k = blockCfgBy REF_ANTITARGET_FLAGS doGc doEdge doRmask k := by
-  unfold blockCfg blockCfgBy REF_TARGET_FLAGS REF_ANTITARGET_FLAGS
-  cases doGc <;> cases doEdge <;> cases doRmask <;> simp [flagOf]
 
 end CnvVerif.Src
